@@ -9,6 +9,7 @@ against the Lean specification (SigModel/Spec/Logs.lean) — see evidence and kn
 -/
 import SigModel.Gen.TimeRange
 import SigModel.Spec.Logs
+import SigModel.Lemmas.C02Kc
 
 namespace SigModel.Props.C02
 open SigModel.Gen SigModel.Spec
@@ -47,5 +48,209 @@ theorem spec_and_or_not (e : Event) (a b : Filter) :
   simp [evalFilter, evalFilterAux]
 
 example : TimeRange_CheckRangeOverLap 20 10 5 12 = true ∧ TimeRange_CheckRangeOverLap 20 10 1 9 = false := by decide
+
+
+/-! ## Kernel slice C02K: the typed comparison of a stored value with a numeric literal
+
+Model `SigModel/Model/Cmp.lean` (mirrors rawchecker.go filterOpOnDataType → fopOnNumber → compareNumberDte,
+segutils.go enclosureFromJsonNumber, metacheckers.go checkRangeIndexHelper, evaluationstructs.go / dtypeutils.go
+where-stage comparison), tied to the real code by the correspondence suite `cmpk`.  `rnd` is the float64 rounding
+(`strconv.ParseFloat`, `float64(int)`, the subtraction in AlmostEquals); the theorems hold for EVERY `rnd` with
+`RndOk rnd` (rnd 0 = 0, 0 < rnd 0.0001, idempotent, fixes binary64 values); exactness of `rnd` on a converted
+integer is part of the guards (true for |n| ≤ 2^53).  Counterexamples use the Oracle's concrete round-to-nearest-even
+`roundF64` and are replayed on the real code (corpus/cmpk.ops). -/
+
+section Kernel
+open SigModel.Cmp SigModel.Tlv SigModel.Lemmas.C02K
+
+/-- (1) FULL-strength statement: for every stored value `v` of the writer's kinds, every operator and every number
+text `t`, the search-clause comparison on the record bytes answers without error exactly the comparison BY VALUE
+(`specCmp`: integers and float64 records denote their exact values, an integer literal its integer, any other
+literal the float64 it parses to; a value that is not a number satisfies only `!=`). -/
+def ImplEqSpec (rnd : Rat → Rat) : Prop :=
+  ∀ (ci : Bool) (v : SVal) (op : Cmp.Op) (t : NumText), v.wf → t.wf →
+    implCmp rnd ci v.enc op (mkLit rnd t) = .ok (specCmp v op (mkLit rnd t))
+
+/-- REFUTED, class A (AlmostEquals tolerance): the stored float64 2.00001 `=` literal 2 is true in the code. -/
+theorem implCmp_eq_spec_counterexample_tolerance : ¬ ImplEqSpec roundF64 := by
+  intro h
+  have := h false (.float 0x400000053e2d6239) .eq ⟨false, some 2, some 2, 2⟩ (by decide) (by decide)
+  revert this; decide +kernel
+
+/-- REFUTED, class B: the stored int64 2^53+1 is not `>` the literal 9007199254740992.0 in the code
+(`float64(record)` drops the low bit). -/
+theorem implCmp_eq_spec_counterexample_int_beyond_2_53 : ¬ ImplEqSpec roundF64 := by
+  intro h
+  have := h false (.int 9007199254740993) .gt ⟨false, none, none, 9007199254740992⟩ (by decide) (by decide)
+  revert this; decide +kernel
+
+/-- REFUTED, class C: the stored float64 2^63 `=` the integer literal 9223372036854775807 in the code
+(the literal's FloatVal is rounded). -/
+theorem implCmp_eq_spec_counterexample_lit_beyond_2_53 : ¬ ImplEqSpec roundF64 := by
+  intro h
+  have := h false (.float 0x43e0000000000000) .eq
+    ⟨false, some 9223372036854775807, some 9223372036854775807, 9223372036854775807⟩ (by decide) (by decide)
+  revert this; decide +kernel
+
+/-- REFUTED, class D: the stored uint64 0 is `<` the literal -1000 in the code (`uint64(-1000)` wraps). -/
+theorem implCmp_eq_spec_counterexample_uint_vs_negative : ¬ ImplEqSpec roundF64 := by
+  intro h
+  have := h false (.uint 0) .lt ⟨true, none, some (-1000), -1000⟩ (by decide) (by decide)
+  revert this; decide +kernel
+
+/-- REFUTED, class E: the stored int64 5 is not `<` the literal 9223372036854775808 in the code
+(`int64(2^63)` wraps to -2^63). -/
+theorem implCmp_eq_spec_counterexample_lit_beyond_int64 : ¬ ImplEqSpec roundF64 := by
+  intro h
+  have := h false (.int 5) .lt ⟨false, some 9223372036854775808, none, 9223372036854775808⟩ (by decide) (by decide)
+  revert this; decide +kernel
+
+/-- REFUTED, class F: the stored string "2" is not `=` the literal 2 in the code (numeric strings are not numbers
+for `fopOnNumber`). -/
+theorem implCmp_eq_spec_counterexample_numeric_string : ¬ ImplEqSpec roundF64 := by
+  intro h
+  have := h false (.str [50]) .eq ⟨false, some 2, some 2, 2⟩ (by decide) (by decide)
+  revert this; decide +kernel
+
+/-- the decidable guard that excludes exactly the classes A–F (`cmpGuardQ`, SigModel/Lemmas/C02Kb.lean) -/
+def CmpGuard (rnd : Rat → Rat) (v : SVal) (op : Cmp.Op) (t : NumText) : Bool := cmpGuardQ rnd v op (mkLit rnd t)
+
+/-- (1) PROVED under the guard, for every rounding function with `RndOk`, every stored value, operator, literal
+text and case-sensitivity flag: the search-clause comparison is the comparison by value. -/
+theorem implCmp_eq_spec_partial (rnd : Rat → Rat) (hr : RndOk rnd) (ci : Bool) (v : SVal) (op : Cmp.Op) (t : NumText)
+    (hv : v.wf) (ht : t.wf) (hg : CmpGuard rnd v op t = true) :
+    implCmp rnd ci v.enc op (mkLit rnd t) = .ok (specCmp v op (mkLit rnd t)) :=
+  impl_eq_spec_q rnd hr ci v hv op _ (mkLit_ok rnd hr t ht) hg
+
+/-- the case repaired by /repo ec0bd3f, at full generality: an integer record that float64 represents exactly
+(every |i| ≤ 2^53) against ANY float-typed literal (2.5, 2.0, 1e3, +2, …) under `<`, `<=`, `>`, `>=` is compared
+by value. -/
+theorem int_vs_decimal_order_by_value (rnd : Rat → Rat) (hr : RndOk rnd) (ci : Bool) (i : Int) (op : Cmp.Op) (t : NumText)
+    (hv : (SVal.int i).wf) (ht : t.wf) (hex : rnd (i : Rat) = (i : Rat)) (hf : (mkLit rnd t).dtype = .float)
+    (hop : op ≠ .eq ∧ op ≠ .ne) :
+    implCmp rnd ci (SVal.int i).enc op (mkLit rnd t) = .ok (specCmp (.int i) op (mkLit rnd t)) := by
+  apply implCmp_eq_spec_partial rnd hr ci _ op t hv ht
+  cases op <;> simp_all [CmpGuard, cmpGuardQ, tolOk]
+
+/-- the assumptions on `rnd` are consistent, and the two that are closed facts hold for the Oracle's rounding -/
+example : RndOk (fun x => x) := ⟨rfl, by decide +kernel, fun _ => rfl, fun _ _ => rfl⟩
+theorem roundF64_zero_tol : roundF64 0 = 0 ∧ 0 < roundF64 tolerance := by decide +kernel
+
+/-- the guard is satisfiable: 2 < 2.5, 2 = 2.0 on an int64 record; 0.1 = 0.1 and 2.5 ≥ 2 on a float64 record -/
+example : CmpGuard roundF64 (.int 2) .lt ⟨false, none, none, 5 / 2⟩ = true ∧
+    CmpGuard roundF64 (.int 2) .eq ⟨false, none, none, 2⟩ = true ∧
+    CmpGuard roundF64 (.float 0x3fb999999999999a) .eq ⟨false, none, none, 1 / 10⟩ = true ∧
+    CmpGuard roundF64 (.float 0x4004000000000000) .ge ⟨false, some 2, some 2, 2⟩ = true := by decide +kernel
+
+/-- (2) FULL-strength statement: the block range-index check never skips a block whose range holds a value that
+satisfies the comparison by value. -/
+def RangeSound (rnd : Rat → Rat) : Prop :=
+  ∀ (ri : Range) (v : SVal) (op : Cmp.Op) (t : NumText), v.wf → t.wf → ri.contains rnd v →
+    specCmp v op (mkLit rnd t) = true → rangeCheck rnd ri op t = true
+
+/-- REFUTED (float fallback of an integer range, bounds beyond 2^53): a block holding only the int64 2^53+1 is
+skipped for `> 9007199254740992.0`. -/
+theorem range_check_sound_counterexample : ¬ RangeSound roundF64 := by
+  intro h
+  have := h (.s 9007199254740993 9007199254740993) (.int 9007199254740993) .gt
+    ⟨false, none, none, 9007199254740992⟩ (by decide) (by decide) (by simp [Range.contains]) (by decide +kernel)
+  revert this; decide +kernel
+
+/-- REFUTED (float range, integer literal beyond 2^53 re-read with ParseFloat): a block holding only the float64
+2^64 is skipped for `> 18446744073709551615`. -/
+theorem range_check_sound_counterexample_float_range : ¬ RangeSound roundF64 := by
+  intro h
+  have := h (.f (f64val 0x43f0000000000000) (f64val 0x43f0000000000000)) (.float 0x43f0000000000000) .gt
+    ⟨false, some 18446744073709551615, none, 18446744073709551615⟩ (by decide) (by decide)
+    (by simp [Range.contains]) (by decide +kernel)
+  revert this; decide +kernel
+
+/-- (2) PROVED under the guard `rangeGuard` (every integer pushed through float64 by the fallback or by a float
+range is represented exactly): for every range of every type that contains the stored value, every operator and
+literal text, if the value satisfies the comparison by value the check does not skip — with the float fallback of
+ec0bd3f as coded, on the REGENERATED does*PassRangeFilter kernels. -/
+theorem range_check_sound_partial (rnd : Rat → Rat) (ri : Range) (v : SVal) (op : Cmp.Op) (t : NumText) (ht : t.wf)
+    (hc : ri.contains rnd v) (hs : specCmp v op (mkLit rnd t) = true) (hg : rangeGuard rnd ri v t = true) :
+    rangeCheck rnd ri op t = true :=
+  range_sound rnd ri v op t ht hc hs hg
+
+/-- the range guard is satisfiable: int64 range [1,3] against 2.5 (float fallback) and against 2; float range -/
+example : rangeGuard roundF64 (.s 1 3) (.int 2) ⟨false, none, none, 5 / 2⟩ = true ∧
+    rangeGuard roundF64 (.s 1 3) (.int 2) ⟨false, some 2, some 2, 2⟩ = true ∧
+    rangeGuard roundF64 (.f (1 / 2) 3) (.int 2) ⟨false, some 2, some 2, 2⟩ = true := by decide +kernel
+
+/-- (3) FULL-strength statement: on a numeric field the search clause and the same comparison in a later `where`
+stage give the same answer. -/
+def SearchWhereAgree (rnd : Rat → Rat) : Prop :=
+  ∀ (ci : Bool) (v : SVal) (op : Cmp.Op) (t : NumText) (b : Bool), v.wf → t.wf →
+    whereCmp rnd v op t = some b → implCmp rnd ci v.enc op (mkLit rnd t) = .ok b
+
+/-- REFUTED (where-stage defect in dtypeutils.ConvertToSameType): `where x=0` is TRUE for the float64 2.5, the
+search clause `x=0` is false. -/
+theorem search_where_agree_counterexample_where_zero : ¬ SearchWhereAgree roundF64 := by
+  intro h
+  have := h false (.float 0x4004000000000000) .eq ⟨false, some 0, some 0, 0⟩ true (by decide) (by decide) (by decide +kernel)
+  revert this; decide +kernel
+
+/-- REFUTED (tolerance): the float64 2.00001 `= 2` is true in the search clause, false in the where stage. -/
+theorem search_where_agree_counterexample_tolerance : ¬ SearchWhereAgree roundF64 := by
+  intro h
+  have := h false (.float 0x400000053e2d6239) .eq ⟨false, some 2, some 2, 2⟩ false (by decide) (by decide) (by decide +kernel)
+  revert this; decide +kernel
+
+/-- REFUTED (the where stage compares every number as float64): the int64 2^53+1 `= 9007199254740992` is true in
+the where stage, false in the search clause. -/
+theorem search_where_agree_counterexample_beyond_2_53 : ¬ SearchWhereAgree roundF64 := by
+  intro h
+  have := h false (.int 9007199254740993) .eq
+    ⟨false, some 9007199254740992, some 9007199254740992, 9007199254740992⟩ true (by decide) (by decide) (by decide +kernel)
+  revert this; decide +kernel
+
+/-- (3) PROVED under both guards (`CmpGuard` for the search clause, `whereGuard` for the where stage): on a numeric
+field both stages compute the comparison by value, hence agree. -/
+theorem search_where_agree_partial (rnd : Rat → Rat) (hr : RndOk rnd) (ci : Bool) (v : SVal) (op : Cmp.Op) (t : NumText)
+    (b : Bool) (hv : v.wf) (ht : t.wf) (hg : CmpGuard rnd v op t = true) (hw : whereGuard rnd v op t = true)
+    (h : whereCmp rnd v op t = some b) :
+    implCmp rnd ci v.enc op (mkLit rnd t) = .ok b ∧ b = specCmp v op (mkLit rnd t) := by
+  have h1 := implCmp_eq_spec_partial rnd hr ci v op t hv ht hg
+  cases hf : fieldFloat rnd v with
+  | none => simp [whereCmp, hf] at h
+  | some a =>
+    have h2 := where_eq_spec rnd hr v hv op t ht a hf hw
+    rw [h2] at h
+    have hb : specCmp v op (mkLit rnd t) = b := by simpa using h
+    rw [h1, hb]; exact ⟨rfl, rfl⟩
+
+/-- both guards are satisfiable together: int64 2 against `< 2.5` and `= 2`, float64 2.5 against `!= 2` -/
+example : (CmpGuard roundF64 (.int 2) .lt ⟨false, none, none, 5 / 2⟩ && whereGuard roundF64 (.int 2) .lt ⟨false, none, none, 5 / 2⟩) = true ∧
+    (CmpGuard roundF64 (.int 2) .eq ⟨false, some 2, some 2, 2⟩ && whereGuard roundF64 (.int 2) .eq ⟨false, some 2, some 2, 2⟩) = true ∧
+    (CmpGuard roundF64 (.float 0x4004000000000000) .ne ⟨false, some 2, some 2, 2⟩ &&
+      whereGuard roundF64 (.float 0x4004000000000000) .ne ⟨false, some 2, some 2, 2⟩) = true := by decide +kernel
+
+/-- case-insensitive text equality of the kernel (`fopOnString`): `=` on a stored string against a string literal
+of any length is ASCII case-folded equality when the flag is set, byte equality otherwise; `!=` is its negation. -/
+theorem string_eq_ne (rnd : Rat → Rat) (ci : Bool) (s p : Bytes) (hs : s.length < 65536) :
+    implCmp rnd ci (SVal.str s).enc .eq (strLit p) = .ok (bytesEq ci s p) ∧
+    implCmp rnd ci (SVal.str s).enc .ne (strLit p) = .ok (!bytesEq ci s p) := by
+  have hl : s.length % 65536 = s.length := Nat.mod_eq_of_lt hs
+  have h3 : (leN 2 s.length).length = 2 := SigModel.Lemmas.C01.leN_length 2 _
+  have hd : List.drop 3 (tStr :: (leN 2 s.length ++ s)) = s := by
+    have : (tStr :: (leN 2 s.length ++ s)) = (tStr :: leN 2 s.length) ++ s := by simp
+    rw [this, List.drop_left' (by simp [h3])]
+  constructor
+  · simp only [implCmp, strLit, SVal.enc, SVal.toTlv, encTLV, hl, List.take_length, fopOnString]
+    simp [h3, hd]
+    have h0 : ¬ (2 + s.length + 1 < 3) := by omega
+    simp only [h0, if_false]
+    by_cases hne : s.length = p.length
+    · simp [hne]
+    · simp only [hne, if_false]
+      cases ci <;> simp [bytesEq]
+      · intro he; rw [he] at hne; exact hne rfl
+      · exact ciEqual_length_ne s p hne
+  · simp only [implCmp, strLit, SVal.enc, SVal.toTlv, encTLV, hl, List.take_length, fopOnString]
+    simp [h3, hd]
+
+end Kernel
 
 end SigModel.Props.C02
